@@ -1,9 +1,10 @@
 import EV.Proofs.System
 
 /-!
-The proposed fix (`cmpLive = true`: the second loop of `_notify_inner` compares the new status with
-the value that is in `mempool_statuses` at the moment it is replaced): `mempool_statuses` never
-records a status the client was not sent, hence nothing is ever `suppressed`.
+The current code (`cmpLive = true`: the second loop of `_notify_inner` compares the new status with the
+value that is in `mempool_statuses` at the moment it is replaced; `raiseOnRace = false`:
+`_refresh_hsub_results` always reads again): `mempool_statuses` never records a status the client was
+not sent, hence nothing is ever `suppressed`; and no notification is ever `lost`.
 -/
 namespace EV.System
 
@@ -11,21 +12,22 @@ structure FixInv (st : St) : Prop where
   /-- every status recorded in `mempool_statuses` is the one the client holds -/
   msHeld : ∀ s x v, lookup x (msOf st s) = some v → heldOf st s x = some v
   nosupp : st.suppressed = []
+  nolost : st.lost = []
   lens : st.held.length = st.ms.length
 
 theorem FixInv.of_eq {st st' : St} (h : FixInv st) (e_ms : st'.ms = st.ms) (e_held : st'.held = st.held)
-    (e_supp : st'.suppressed = st.suppressed) : FixInv st' :=
+    (e_supp : st'.suppressed = st.suppressed) (e_lost : st'.lost = st.lost) : FixInv st' :=
   ⟨fun s x v hl => by simp only [msOf, e_ms] at hl; simp only [heldOf, e_held]; exact h.msHeld s x v hl,
-   by rw [e_supp]; exact h.nosupp, by rw [e_ms, e_held]; exact h.lens⟩
+   by rw [e_supp]; exact h.nosupp, by rw [e_lost]; exact h.nolost, by rw [e_ms, e_held]; exact h.lens⟩
 
 theorem fixInv_init (n m : Nat) : FixInv (init n m) := by
-  refine ⟨?_, rfl, by simp [init]⟩
+  refine ⟨?_, rfl, rfl, by simp [init]⟩
   intro s x v hl
   simp only [msOf, init, List.getD_eq_getElem?_getD, List.getElem?_replicate] at hl
   split at hl <;> simp [lookup] at hl
 
 theorem fix_send (st : St) (s hx : Nat) (v : Status) (h : FixInv st) : FixInv (send st s hx v) := by
-  refine ⟨?_, h.nosupp, by simp [send, deliver, setMs, length_modifyAt, h.lens]⟩
+  refine ⟨?_, h.nosupp, h.nolost, by simp [send, deliver, setMs, length_modifyAt, h.lens]⟩
   intro s' x' v' hl
   rw [msOf_send] at hl
   rw [heldOf_send]
@@ -51,7 +53,7 @@ theorem fix_visit2 (f : Flags) (hb : f.batch = false) (hl : f.cmpLive = true) (s
     have hheld : heldOf st s hx = some (c, memOf st hx) := h.msHeld s hx _ hd
     have hne : (heldOf st s hx != some (c, memOf st hx)) = false := by simp [hheld]
     simp only [hne, Bool.false_eq_true, if_false]
-    refine ⟨⟨?_, h.nosupp, by simp [setMs, length_modifyAt, h.lens]⟩, trivial⟩
+    refine ⟨⟨?_, h.nosupp, h.nolost, by simp [setMs, length_modifyAt, h.lens]⟩, trivial⟩
     intro s' x' v' hlk
     have e1 : lookup x' (msOf { (setMs st s hx (c, memOf st hx)) with suppressed := st.suppressed } s') =
         lookup x' (msOf (setMs st s hx (c, memOf st hx)) s') := rfl
@@ -67,7 +69,7 @@ theorem fix_visit2 (f : Flags) (hb : f.batch = false) (hl : f.cmpLive = true) (s
       exact h.msHeld s' x' v' hlk
 
 theorem fix_suspend (st : St) (t : Task) (h : FixInv st) : FixInv { st with tasks := st.tasks ++ [t] } :=
-  h.of_eq rfl rfl rfl
+  h.of_eq rfl rfl rfl rfl
 
 theorem fix_notifyGo2 (f : Flags) (hb : f.batch = false) (hl : f.cmpLive = true) (s : Nat)
     (todo : List (Nat × Status)) (st : St) (h : FixInv st) : FixInv (notifyGo2 f st s todo []) := by
@@ -107,7 +109,7 @@ theorem fix_resume (f : Flags) (hb : f.batch = false) (hl : f.cmpLive = true) (s
   | query => exact h
   | sub s x =>
     simp only [resume]
-    exact (fix_send st s x _ h).of_eq rfl rfl rfl
+    exact (fix_send st s x _ h).of_eq rfl rfl rfl rfl
   | notify s rest ch =>
     obtain rfl := hch.1 s rest ch rfl
     simp only [resume, visit1_eq f hb]
@@ -130,7 +132,7 @@ theorem fix_startRead (f : Flags) (hb : f.batch = false) (hl : f.cmpLive = true)
 theorem fix_finishNotify (f : Flags) (hb : f.batch = false) (hl : f.cmpLive = true) (st : St) (xs : List Nat)
     (hc : Bool) (h : FixInv st) : FixInv (finishNotify f st xs hc) := by
   unfold finishNotify
-  have h0 : FixInv { st with cache := st.cache.filter (fun e => !xs.contains e.1) } := h.of_eq rfl rfl rfl
+  have h0 : FixInv { st with cache := st.cache.filter (fun e => !xs.contains e.1) } := h.of_eq rfl rfl rfl rfl
   generalize ({ st with cache := st.cache.filter (fun e => !xs.contains e.1) } : St) = st0 at h0
   generalize List.range st.subs.length = ss
   induction ss generalizing st0 with
@@ -142,7 +144,7 @@ theorem fix_finishNotify (f : Flags) (hb : f.batch = false) (hl : f.cmpLive = tr
     have hh : FixInv (hdrNotify st0 s hc) := by
       unfold hdrNotify
       split
-      · exact h0.of_eq rfl rfl rfl
+      · exact h0.of_eq rfl rfl rfl rfl
       · exact h0
     split
     · exact h0
@@ -150,34 +152,34 @@ theorem fix_finishNotify (f : Flags) (hb : f.batch = false) (hl : f.cmpLive = tr
       · exact fix_notifyGo f hb hl s _ _ hh
       · exact hh
 
-/-- every event preserves `FixInv` under the proposed fix -/
-theorem fix_step (f : Flags) (hb : f.batch = false) (hl : f.cmpLive = true) (st : St) (ev : Ev)
-    (hinv : Inv st) (h : FixInv st) : FixInv (step f st ev) := by
+/-- every event preserves `FixInv` for the current second-loop comparison and the always-retrying refresh -/
+theorem fix_step (f : Flags) (hb : f.batch = false) (hl : f.cmpLive = true) (hnr : f.raiseOnRace = false)
+    (st : St) (ev : Ev) (hinv : Inv st) (h : FixInv st) : FixInv (step f st ev) := by
   cases ev with
-  | change x => exact h.of_eq rfl rfl rfl
-  | mpChange x m => exact h.of_eq rfl rfl rfl
+  | change x => exact h.of_eq rfl rfl rfl rfl
+  | mpChange x m => exact h.of_eq rfl rfl rfl rfl
   | flip x m =>
     simp only [step]
     split
-    · exact h.of_eq rfl rfl rfl
+    · exact h.of_eq rfl rfl rfl rfl
     · exact h
-  | advance d => exact h.of_eq rfl rfl rfl
+  | advance d => exact h.of_eq rfl rfl rfl rfl
   | backup =>
     simp only [step]
     split
     · exact h
-    · exact h.of_eq rfl rfl rfl
-  | reorgSignal => exact h.of_eq rfl rfl rfl
+    · exact h.of_eq rfl rfl rfl rfl
+  | reorgSignal => exact h.of_eq rfl rfl rfl rfl
   | notify ht xs =>
     simp only [step]
     split
-    · exact h.of_eq rfl rfl rfl
-    · exact fix_finishNotify f hb hl _ xs false (h.of_eq rfl rfl rfl)
+    · exact h.of_eq rfl rfl rfl rfl
+    · exact fix_finishNotify f hb hl _ xs false (h.of_eq rfl rfl rfl rfl)
   | subscribe s x =>
     exact fix_startRead f hb hl st x _ ⟨fun _ _ _ hc => (by cases hc), fun _ _ _ _ hc => (by cases hc)⟩ h
   | unsubscribe s x =>
     simp only [step]
-    refine ⟨?_, h.nosupp, by simp [length_modifyAt, h.lens]⟩
+    refine ⟨?_, h.nosupp, h.nolost, by simp [length_modifyAt, h.lens]⟩
     intro s' x' v' hlk
     show heldOf st s' x' = some v'
     simp only [msOf, getD_modifyAt] at hlk
@@ -187,16 +189,16 @@ theorem fix_step (f : Flags) (hb : f.batch = false) (hl : f.cmpLive = true) (st 
       · cases hlk
       · exact h.msHeld s' x' v' hlk
     · exact h.msHeld s' x' v' hlk
-  | closeSession s => exact h.of_eq rfl rfl rfl
-  | subscribeHeaders s => exact h.of_eq rfl rfl rfl
+  | closeSession s => exact h.of_eq rfl rfl rfl rfl
+  | subscribeHeaders s => exact h.of_eq rfl rfl rfl rfl
   | getHistory s x =>
     exact fix_startRead f hb hl st x _ ⟨fun _ _ _ hc => (by cases hc), fun _ _ _ _ hc => (by cases hc)⟩ h
-  | evict x => exact h.of_eq rfl rfl rfl
+  | evict x => exact h.of_eq rfl rfl rfl rfl
   | readDo i =>
     simp only [step]
     cases nthIdx st.tasks false i with
     | none => exact h
-    | some j => exact h.of_eq rfl rfl rfl
+    | some j => exact h.of_eq rfl rfl rfl rfl
   | readFinish i =>
     simp only [step]
     cases nthIdx st.tasks true i with
@@ -213,13 +215,13 @@ theorem fix_step (f : Flags) (hb : f.batch = false) (hl : f.cmpLive = true) (st 
         | some v =>
           simp only
           split
-          · exact h.of_eq rfl rfl rfl
-          · exact fix_resume f hb hl _ t.hx v t.cont (hinv.nochg t htm) (h.of_eq rfl rfl rfl)
+          · exact h.of_eq rfl rfl rfl rfl
+          · exact fix_resume f hb hl _ t.hx v t.cont (hinv.nochg t htm) (h.of_eq rfl rfl rfl rfl)
   | hdrDo i =>
     simp only [step]
     cases nthIdxH st.hreads false i with
     | none => exact h
-    | some j => exact h.of_eq rfl rfl rfl
+    | some j => exact h.of_eq rfl rfl rfl rfl
   | hdrFinish i =>
     simp only [step]
     cases nthIdxH st.hreads true i with
@@ -234,19 +236,17 @@ theorem fix_step (f : Flags) (hb : f.batch = false) (hl : f.cmpLive = true) (st 
         | none => exact h
         | some v =>
           cases v with
-          | some d => exact fix_finishNotify f hb hl _ r.xs true (h.of_eq rfl rfl rfl)
+          | some d => exact fix_finishNotify f hb hl _ r.xs true (h.of_eq rfl rfl rfl rfl)
           | none =>
-            simp only
-            split
-            · exact h.of_eq rfl rfl rfl
-            · exact h.of_eq rfl rfl rfl
+            simp only [hnr, Bool.false_and, Bool.false_eq_true, if_false]
+            exact h.of_eq rfl rfl rfl rfl
 
 theorem fix_run (f : Flags) (hb : f.batch = false) (hcc : f.checkCount = true) (hr : f.recheck = true)
-    (hl : f.cmpLive = true) (st : St) (evs : List Ev) (hinv : Inv st) (h : FixInv st) :
+    (hl : f.cmpLive = true) (hnr : f.raiseOnRace = false) (st : St) (evs : List Ev) (hinv : Inv st) (h : FixInv st) :
     FixInv (run f st evs) := by
   induction evs generalizing st with
   | nil => exact h
   | cons ev evs ih =>
-    exact ih (step f st ev) (inv_step_flags f hb hcc hr st ev hinv) (fix_step f hb hl st ev hinv h)
+    exact ih (step f st ev) (inv_step_flags f hb hcc hr st ev hinv) (fix_step f hb hl hnr st ev hinv h)
 
 end EV.System
